@@ -385,6 +385,11 @@ def run(run):
         if check_detector(run, db) < 2:
             run.broke('no function stores create() in the thread\'s stack pointer [%s]' % cfg)
         if check_cas(run, db) < 1:
-            run.broke('no compare-exchange on in_use_ found [%s]' % cfg)
+            fu = [f for f in tmp_fns(db) if f.short == 'find_unused']
+            if not fu:
+                run.broke('neither a compare-exchange on in_use_ nor find_unused found [%s]' % cfg)
+            for f in fu:
+                _emit(run, 'R-TS14.cas', f, db, ['in_use_ is not taken by a compare-exchange: two threads can adopt the same stack'], '',
+                      {'function': strip_ns(f.name), 'role': 'adopt only an unused stack'})
     if not did:
         run.broke('no configuration with temporary stack mode 2')
